@@ -268,6 +268,17 @@ def edits(data, nested=True):
     for i, (cid, d) in enumerate(chunks):
         if cid in OPTIONAL:
             yield f"drop@{i}:{cid.decode()}", "drop:" + cid.decode(), codec.build_chunks(chunks[:i] + chunks[i + 1:]), "drop"
+    # C strings end at the FIRST NUL: whatever follows it inside the chunk (SunVox keeps the old tail of a fixed-size
+    # buffer when a name gets shorter) is not part of the value
+    for i, (cid, d) in enumerate(chunks):
+        if cid in (b"NAME", b"SNAM", b"SMIN", b"PNME") and d:
+            head = d.split(b"\0")[0]
+            tail = b"\0old tail 01"
+            nd = head + tail
+            if cid == b"SNAM":
+                nd = (head + tail).ljust(32, b"\0")[:32] if len(head) + len(tail) <= 32 else None
+            if nd is not None and nd != d:
+                yield f"cstr@{i}:{cid.decode()}", "bytes-after-terminator:" + cid.decode(), _with(chunks, i, nd), "insert"
     # CVAL truncation: per module section keep the first k CVALs
     i = 0
     while i < len(chunks):
@@ -319,6 +330,12 @@ def edits(data, nested=True):
                     yield f"nested@{i}/{label}", "nested/" + cls, codec.build_chunks(new), kind
 
 
+def _with(chunks, i, payload):
+    new = list(chunks)
+    new[i] = (chunks[i][0], payload)
+    return codec.build_chunks(new)
+
+
 def check_edits(data, case, key, which=("insert", "drop", "trunc", "swap")):
     vs = []
     n = 0
@@ -339,10 +356,19 @@ def check_edits(data, case, key, which=("insert", "drop", "trunc", "swap")):
         except Exception as e:
             vs.append(C.viol("edited-file-not-loadable", dict(ekey, exc=type(e).__name__), {"error": repr(e)[:200], "edit": label}, ecase))
             continue
+        if kind in ("drop", "trunc"):
+            # a file that merely lacks optional chunks / trailing controller values loads into a USABLE object
+            try:
+                C.load_bytes(C.save(obj))
+            except Exception as e:
+                vs.append(C.viol("object-loaded-from-edited-file-cannot-be-saved", dict(ekey, exc=type(e).__name__),
+                                 {"error": repr(e)[:200], "edit": label}, ecase))
+                continue
         if kind in ("insert", "swap"):
             d = S.diff(base_snap, S.snapshot(obj))
             if d:
-                vs.append(C.viol("unknown-chunk-changes-result" if kind == "insert" else "header-order-changes-result",
+                vs.append(C.viol(("bytes-after-terminator-change-result" if cls.startswith("bytes-after") else "unknown-chunk-changes-result")
+                                 if kind == "insert" else "header-order-changes-result",
                                  dict(ekey, path=S.generic_path(d[0][0])), {"diff": S.diff_text(d), "edit": label}, ecase))
             elif C.save(obj) != base_bytes:
                 vs.append(C.viol("resaved-bytes-differ", ekey, {"edit": label}, ecase))
